@@ -181,9 +181,33 @@ def pyx_vs_c():
 COQFLAGS = ["-Q", os.path.join(COQ, "theories"), "Pq"]
 
 
+def _gen_cmd_v():
+    """Extract/Cmd.v is generated: it concatenates the `table` of every Extract/Cmd_*.v present."""
+    d = os.path.join(COQ, "theories", "Extract")
+    mods = sorted(f[:-2] for f in os.listdir(d) if f.startswith("Cmd_") and f.endswith(".v"))
+    txt = "(* GENERATED by harness/common.py from the Cmd_*.v files present; do not edit. *)\n"
+    txt += "From Coq Require Import NArith ZArith List String Bool.\n"
+    txt += "From Pq Require Import Base.Bytes Extract.Sx.\n"
+    for m in mods:
+        txt += "From Pq Require Extract.%s.\n" % m
+    txt += "Import ListNotations.\nOpen Scope string_scope.\n"
+    txt += "Definition table : list (string * handler) :=\n  " + " ++\n  ".join("%s.table" % m for m in mods) + ".\n"
+    txt += """Definition run (s : sx) : sx :=
+  match s with
+  | SL (SB c :: args) =>
+    match dispatch table c with Some h => h args | None => err "unknown command" end
+  | _ => err "malformed command"
+  end.
+"""
+    p = os.path.join(d, "Cmd.v")
+    if not os.path.exists(p) or open(p).read() != txt:
+        open(p, "w").write(txt)
+
+
 def coq_lib():
     """(Re)build the hand-written library. No-op when up to date."""
     with Lock("coq"):
+        _gen_cmd_v()
         mk = os.path.join(COQ, "Makefile")
         proj = os.path.join(COQ, "_CoqProject")
         files = sorted(
@@ -454,10 +478,14 @@ def _drain(procs, results, timeout):
 # ---------------------------------------------------------------------------
 
 def load_findings():
-    p = os.path.join(VERIF, "known_findings.json")
-    if not os.path.exists(p):
-        return []
-    return json.load(open(p))["findings"]
+    """Known findings are committed under findings.d/<ID>.json (one file per property, so that
+    independent work on different properties never edits the same file); known_findings.json at the
+    top level is the concatenation, regenerated by tools/mkmanifest.py for readers."""
+    import glob
+    out = []
+    for p in sorted(glob.glob(os.path.join(VERIF, "findings.d", "C*.json"))):
+        out += json.load(open(p)).get("findings", [])
+    return out
 
 
 def _match_val(pat, v):
